@@ -523,7 +523,8 @@ class Context(object):
                 self.pos = 0
                 self.queue = []
                 self.solver.push()
-                self.model_ok = None
+                if runs > 1:
+                    self.model_ok = None      # the first run starts from the unchanged path condition: keep its model
                 try:
                     v = thunk()
                     results.append((list(self.pc[base_len:]), v))
@@ -648,6 +649,10 @@ def replace_all(self, z, old, new):
         o, n = _pystr(old), _pystr(new)
         if len(o) == 1 and o not in n:
             self.assume(z3.Not(z3.Contains(r, old)))
+        # single characters that occur neither in the subject nor in the replacement do not appear
+        for ch in "<>\"'":
+            if ch != o and ch not in n:
+                self.assume(z3.Implies(z3.Not(z3.Contains(z, z3.StringVal(ch))), z3.Not(z3.Contains(r, z3.StringVal(ch)))))
         if o != "" and n != "":
             self.assume((z3.Length(z) == 0) == (z3.Length(r) == 0))
         if len(n) <= len(o):
